@@ -98,6 +98,7 @@ struct Plan {
     preferred_dc: usize,
     failover: bool,
     executions: usize,
+    nat_permille: u64,
     restart_phase: bool,
     rf: Vec<usize>,
 }
@@ -118,6 +119,7 @@ pub fn run(req: &RunRequest) -> Value {
             preferred_dc: tape::choose("c12:preferred_dc", dcs as u64) as usize,
             failover: tape::chance("c12:failover", 1, 2),
             executions: tape::range("c12:executions", 30, 150) as usize,
+            nat_permille: [0, 0, 0, 300][tape::choose("c12:nat", 4) as usize],
             restart_phase: tape::chance("c12:restart_phase", 1, 4),
             rf: (0..dcs).map(|_| tape::choose("c12:rf", 4) as usize).collect(),
         };
@@ -136,6 +138,9 @@ pub fn run(req: &RunRequest) -> Value {
             let n = cluster.add_node(&format!("dc{dc}"), &format!("r{rack}"), plan.shards, tokens);
             cluster.nodes[n].msb_ignore = plan.msb_ignore;
             cluster.nodes[n].shard_aware_port_open = true;
+            // NAT in front of the shard-aware port: the connection lands on another
+            // shard than the source port asked for.
+            cluster.nodes[n].nat_permille = plan.nat_permille;
         }
         cluster.features.advertise_shard_aware_port = plan.shard_aware_port;
         let simple_rf = 1 + tape::choose("c12:simple_rf", 3) as usize;
@@ -411,7 +416,7 @@ async fn main(plan: Plan) -> Outcome {
         "pool": format!("{}({})", if plan.per_shard { "PerShard" } else { "PerHost" }, plan.pool_n),
         "shard_aware_port": plan.shard_aware_port, "preference": plan.preference, "failover": plan.failover,
         "rf": plan.rf, "executions": plan.executions, "checked": checked, "shard_checked": shard_checked,
-        "restart_phase": plan.restart_phase,
+        "restart_phase": plan.restart_phase, "nat_permille": plan.nat_permille,
     });
     let _ = Fault::Nat;
     out
